@@ -597,6 +597,110 @@ func (c *concCtx) scenarioIndependence(g *rng, nw int) {
 	c.r.emit("scenario", fmt.Sprintf("scenario independence watchers=%d", nw), "ok")
 }
 
+// scenarioLagging: C14 — the same history, watched through a directory watch AND a watch on the file
+// itself, by Watchers of several buffer sizes with nobody receiving while the history runs; the
+// consumers attach afterwards. A reader that could not hand its events over (small buffer) processes
+// the file's renames and removals later than one that could: the delivered sequence must not depend
+// on that.
+func (c *concCtx) scenarioLagging(g *rng, round int) {
+	dir, err := os.MkdirTemp("", "fsnverif-lag")
+	check(err)
+	defer os.RemoveAll(dir)
+	f, gname := filepath.Join(dir, "hf"), filepath.Join(dir, "hg")
+	check(os.WriteFile(f, []byte("x"), 0o644))
+	sizes := []uint{0, 1, 2, 16, 1024}
+	type wrec struct {
+		w   *fsnotify.Watcher
+		sz  uint
+		evs []string
+		mu  sync.Mutex
+	}
+	var ws []*wrec
+	for _, sz := range sizes {
+		w, err := fsnotify.NewBufferedWatcher(sz)
+		check(err)
+		check(w.Add(dir))
+		check(w.Add(f))
+		ws = append(ws, &wrec{w: w, sz: sz})
+	}
+	var hist []string
+	cur := f // where the originally watched file lives now ("" = deleted)
+	n := 3 + g.intn(6)
+	for i := 0; i < n && cur != ""; i++ {
+		switch g.intn(6) {
+		case 0, 1:
+			fh, err := os.OpenFile(cur, os.O_WRONLY|os.O_APPEND, 0)
+			if err == nil {
+				fh.Write([]byte("y"))
+				fh.Close()
+				hist = append(hist, "write "+filepath.Base(cur))
+			}
+		case 2:
+			os.Chmod(cur, os.FileMode(0o600+i%2))
+			hist = append(hist, "chmod "+filepath.Base(cur))
+		case 3, 4:
+			to := gname
+			if cur == gname {
+				to = f
+			}
+			if os.Rename(cur, to) == nil {
+				hist = append(hist, "mv "+filepath.Base(cur)+" "+filepath.Base(to))
+				cur = to
+			}
+		case 5:
+			if os.Remove(cur) == nil {
+				hist = append(hist, "rm "+filepath.Base(cur))
+				cur = ""
+			}
+		}
+		time.Sleep(time.Duration(200+g.intn(800)) * time.Microsecond) // buffered readers keep up, the unbuffered one cannot
+	}
+	os.WriteFile(filepath.Join(dir, "hEND"), nil, 0o644)
+	for _, x := range ws {
+		go func(x *wrec) {
+			for e := range x.w.Events {
+				x.mu.Lock()
+				x.evs = append(x.evs, fmt.Sprintf("%s:%x", filepath.Base(e.Name), uint32(e.Op)))
+				x.mu.Unlock()
+			}
+		}(x)
+		go func(x *wrec) {
+			for range x.w.Errors {
+			}
+		}(x)
+	}
+	seq := func(x *wrec) string {
+		settle(func() bool {
+			x.mu.Lock()
+			defer x.mu.Unlock()
+			return len(x.evs) > 0 && strings.HasPrefix(x.evs[len(x.evs)-1], "hEND")
+		})
+		x.mu.Lock()
+		defer x.mu.Unlock()
+		// the kernel merges an event into an identical one still at the tail of its queue, so a reader
+		// that lags sees runs of identical events shortened (inotify(7)): compare modulo such runs
+		var out []string
+		for _, e := range x.evs {
+			if len(out) == 0 || out[len(out)-1] != e {
+				out = append(out, e)
+			}
+		}
+		return strings.Join(out, " ")
+	}
+	ref := seq(ws[len(ws)-1])
+	for _, x := range ws[:len(ws)-1] {
+		if got := seq(x); got != ref {
+			c.report("C14", "C14:sequence-depends-on-buffer", fmt.Sprintf("history %v with the consumer attached afterwards: buffer %d delivered [%s], buffer %d delivered [%s]", hist, x.sz, got, ws[len(ws)-1].sz, ref),
+				map[string]interface{}{"history": hist})
+			break
+		}
+	}
+	for _, x := range ws {
+		x.w.Close()
+	}
+	beat()
+}
+
 // scenarioStaleHandle: C14 / C06 — calls on a closed Watcher are inert: they must not reach a newer
 // Watcher that happens to have been handed the same descriptor number.
 func (c *concCtx) scenarioStaleHandle() {
@@ -744,6 +848,14 @@ func runConc(r *rec, g *rng, tier, what, out string, extra map[string]interface{
 			c.scenarioIndependence(g, nw)
 		}
 		c.scenarioStaleHandle()
+		nlag := 40
+		if thorough {
+			nlag = 600
+		}
+		for i := 0; i < nlag; i++ {
+			c.scenarioLagging(g, i)
+		}
+		r.emit("scenario", fmt.Sprintf("scenario lagging_consumer histories=%d", nlag), "ok")
 		szs := []uint{1, 2, 4, 64}
 		if thorough {
 			szs = []uint{1, 2, 4, 8, 16, 64, 256, 1024, 4096}
